@@ -13,7 +13,8 @@ pub fn run_shape<Tl: Timeline>(line: &Value, t: &mut Tally, i: usize, tl: &Tl, c
     t.lines += 1;
     let tm = &line["tm"];
     let (cyc, del, rep) = (tm["cyc"].as_i64().unwrap(), tm["del"].as_i64().unwrap(), tm["rep"].as_i64().unwrap());
-    let exp_total = if rep == -2 { f32::INFINITY } else { del as f32 * 0.125 + cyc as f32 * 0.125 * (rep.max(0) + 1) as f32 };
+    let exp_total = if rep == -2 { f32::INFINITY } else if rep == -3 { del as f32 * 0.125 + cyc as f32 * 0.125 * 4294967296.0f32 }
+                    else { del as f32 * 0.125 + cyc as f32 * 0.125 * (rep.max(0) + 1) as f32 };
     if tl.delay() != del as f32 * 0.125 || tl.cycle_duration() != Some(cyc as f32 * 0.125) || tl.repeat() != repeat_of(rep) || tl.duration() != exp_total {
         t.miss(json!({"line": i, "class": "meta", "shape": line["shape"]}));
     }
